@@ -103,8 +103,17 @@ partial def gatesOf : P → List Nat
   | .Q cs => cs.flatMap gatesOf
   | _ => []
 
+partial def hasSusp : P → Bool
+  | .U _ => true
+  | .V _ c => hasSusp c
+  | .S _ _ _ c => hasSusp c
+  | .Q cs => cs.any hasSusp
+  | _ => false
+
+/-- a Suspense or an `on_cleanup` somewhere below -/
 partial def hasU : P → Bool
   | .U _ => true
+  | .C _ => true
   | .V _ c => hasU c
   | .S _ _ _ c => hasU c
   | .Q cs => cs.any hasU
@@ -120,62 +129,84 @@ structure Rec where
   id : Nat
   kind : Kind
   scope : OwnerId
+  /-- gates of the enclosing Suspends that are OUTSIDE Suspense (their views are rendered by the stream) -/
+  chain : List Nat
+  /-- other gates that must be fired before the leaf can run (Suspends inside Suspense, resources) -/
   need : List Nat
   done : Bool := false
+  /-- `cleanup`: the late Provider/Suspense it is registered under, if any; `site`: its own number -/
+  site : Option Nat := none
+  /-- `site`: is there a Suspense below (whose pending boundary dies with the owner)? -/
+  hasSusp : Bool := false
 
-def mkRec (id : Nat) (kind : Kind) (scope : OwnerId) (need : List Nat) : Rec :=
-  { id, kind, scope, need }
+/-- a Suspend outside Suspense: a chunk of the response stream -/
+structure Node where
+  gate : Nat
+  parent : Option Nat
+  /-- gates of everything before it in document order, and its own (in-order streams poll chunks in order) -/
+  seen : List Nat
 
 structure Ctx where
   scope : OwnerId
   inSusp : Bool := false
   late : Bool := false
   covered : Bool := false
+  chain : List Nat := []
   need : List Nat := []
+  /-- the innermost Provider/Suspense that is rendered late (F-C20-2) -/
+  site : Option Nat := none
+
+def mkRec (id : Nat) (kind : Kind) (ctx : Ctx) : Rec :=
+  { id, kind, scope := ctx.scope, chain := ctx.chain, need := ctx.need, site := ctx.site }
 
 structure CAcc where
   recs : List Rec := []
   owners : List OwnerInfo := []
   provides : List (OwnerId × Nat) := []
   seen : List Nat := []
+  nodes : List Node := []
 
 /-- `base` = number of owners of the world before this request; `r` = request; `io` = in-order stream -/
 partial def compile (base r : Nat) (io : Bool) (ctx : Ctx) (acc : CAcc) : P → CAcc
   | .L id =>
     let k := if ctx.late && !ctx.covered then Kind.exposed else Kind.tag
-    { acc with recs := acc.recs ++ [mkRec id k ctx.scope ctx.need] }
+    { acc with recs := acc.recs ++ [mkRec id k ctx] }
   -- `For` captures `Owner::current()` in the component body and renders every row under it (wrapped)
-  | .F _ id => { acc with recs := acc.recs ++ [mkRec id .tag ctx.scope ctx.need] }
-  | .E id => { acc with recs := acc.recs ++ [mkRec id .tag ctx.scope ctx.need] }
-  | .C id => { acc with recs := acc.recs ++ [mkRec id .cleanup ctx.scope ctx.need] }
+  | .F _ id => { acc with recs := acc.recs ++ [mkRec id .tag ctx] }
+  | .E id => { acc with recs := acc.recs ++ [mkRec id .tag ctx] }
+  | .C id => { acc with recs := acc.recs ++ [mkRec id .cleanup ctx] }
   | .V k c =>
     let o := base + acc.owners.length
+    let isSite := ctx.late && hasU c
+    let siteId := acc.recs.length
     let acc := { acc with
       owners := acc.owners ++ [{ req := r, parent := some ctx.scope, arena := r }]
       provides := acc.provides ++ [(o, r * 1000 + k)]
-      recs := if ctx.late && hasU c then acc.recs ++ [mkRec 0 .site ctx.scope ctx.need]
+      recs := if isSite then acc.recs ++ [{ mkRec siteId .site ctx with site := some siteId, hasSusp := hasSusp c }]
               else acc.recs }
-    compile base r io { ctx with scope := o, covered := true } acc c
+    compile base r io { ctx with scope := o, covered := true, site := if isSite then some siteId else ctx.site } acc c
   | .U c =>
+    let isSite := ctx.late && hasU c
+    let siteId := acc.recs.length
     let acc := { acc with
-      recs := if ctx.late && hasU c then acc.recs ++ [mkRec 0 .site ctx.scope ctx.need]
+      recs := if isSite then acc.recs ++ [{ mkRec siteId .site ctx with site := some siteId, hasSusp := hasSusp c }]
               else acc.recs }
-    compile base r io { ctx with inSusp := true, late := false, covered := false } acc c
+    compile base r io { ctx with inSusp := true, late := false, covered := false,
+                                 site := if isSite then some siteId else ctx.site } acc c
   | .S g a b c =>
-    let acc := { acc with
-      recs := acc.recs ++ [mkRec a .tag ctx.scope ctx.need]
-      seen := acc.seen ++ [g] }
-    -- when the view after the await is produced: inside Suspense with the boundary; outside, when the
-    -- stream reaches this chunk (in order: after everything before it; out of order: own gates only)
-    let childNeed := if ctx.inSusp || !io then ctx.need ++ [g] else acc.seen
-    let acc := { acc with recs := acc.recs ++ [mkRec b .tag ctx.scope childNeed] }
-    compile base r io { ctx with need := childNeed, late := !ctx.inSusp, covered := false } acc c
+    let acc := { acc with recs := acc.recs ++ [mkRec a .tag ctx], seen := acc.seen ++ [g] }
+    if ctx.inSusp then
+      -- inside Suspense: awaited by the boundary's ScopedFuture, rendered under its OwnedView
+      let ctx := { ctx with need := ctx.need ++ [g] }
+      compile base r io ctx { acc with recs := acc.recs ++ [mkRec b .tag ctx] } c
+    else
+      -- outside: a chunk of the stream; its view is rendered by the stream's poll
+      let acc := { acc with nodes := acc.nodes ++ [({ gate := g, parent := ctx.chain.getLast?, seen := acc.seen } : Node)] }
+      let ctx := { ctx with chain := ctx.chain ++ [g], late := true, covered := false }
+      compile base r io ctx { acc with recs := acc.recs ++ [mkRec b .tag ctx] } c
   | .R g a b =>
-    let need := ctx.need ++ [g]
-    { acc with
-      seen := acc.seen ++ [g]
-      recs := acc.recs ++ [mkRec a .tag ctx.scope need,
-                           mkRec b .tag ctx.scope need] }
+    let ctx := { ctx with need := ctx.need ++ [g] }
+    { acc with seen := acc.seen ++ [g], recs := acc.recs ++ [mkRec a .tag ctx, mkRec b .tag ctx] }
   | .Q cs => cs.foldl (compile base r io ctx) acc
 
 /-! ### driver state -/
@@ -184,12 +215,16 @@ structure RQ where
   io : Bool
   gates : List Nat
   recs : List Rec
+  nodes : List Node
+  resolved : List Nat := []
   root : OwnerId
   provides : List (OwnerId × Nat)
   started : Bool := false
   dropped : Bool := false
   ended : Bool := false
   fired : List Nat := []
+  /-- late Provider/Suspense owners parked in another request's cleanups: (site, that request's root) -/
+  parked : List (Nat × OwnerId) := []
 
 structure DS where
   reqs : List RQ := []
@@ -205,10 +240,38 @@ def DS.exec (d : DS) (t : Task) : DS :=
 
 def setReq (d : DS) (r : Nat) (q : RQ) : DS := { d with reqs := d.reqs.set r q }
 
+/-- which stream chunks (Suspends outside Suspense) produce their view in this round: the gate is fired and
+either the chunk is reached (out-of-order: always; in-order: everything before it is complete) or its
+parent's view is being rendered right now (`now_or_never` on an already completed future) -/
+def resolveNodes (q : RQ) (atStart : Bool) : RQ :=
+  let (res, _) := q.nodes.foldl (init := (q.resolved, ([] : List Nat))) fun (res, newly) n =>
+    if res.contains n.gate then (res, newly) else
+    let parentOk := match n.parent with
+      | some p => res.contains p
+      | none => true
+    let parentNow := match n.parent with
+      | some p => newly.contains p
+      | none => atStart
+    let reached := !q.io || n.seen.all fun g => q.fired.contains g
+    if parentOk && q.fired.contains n.gate && (reached || parentNow) then (res ++ [n.gate], newly ++ [n.gate])
+    else (res, newly)
+  { q with resolved := res }
+
 /-- run every not-yet-run leaf of request r whose gates are fired (`cleanup` leaves excluded) -/
-def runEnabled (d : DS) (r : Nat) (q : RQ) : DS × RQ :=
+def runEnabled (d : DS) (r : Nat) (q : RQ) (atStart : Bool := false) : DS × RQ :=
+  let q := resolveNodes q atStart
+  -- late Provider/Suspense sites rendered in this round park their owner in the ambient owner (constant
+  -- during the round: nothing here changes OWNER permanently)
+  let q := match d.st.amb.owner with
+    | some o =>
+      if o == q.root then q else
+      { q with parked := q.parked ++ (q.recs.filterMap fun (rec : Rec) =>
+          if rec.kind == Kind.site && !rec.done && (rec.need.all fun g => q.fired.contains g)
+              && (rec.chain.all fun g => q.resolved.contains g) then some (rec.id, o) else none) }
+    | none => q
   let (d, recs) := q.recs.foldl (init := (d, ([] : List Rec))) fun (d, out) rec =>
-    if rec.done || rec.kind == .cleanup || !(rec.need.all fun g => q.fired.contains g) then (d, out ++ [rec])
+    if rec.done || rec.kind == .cleanup || !(rec.need.all fun g => q.fired.contains g)
+        || !(rec.chain.all fun g => q.resolved.contains g) then (d, out ++ [rec])
     else
       let cap : Amb := { owner := some rec.scope, observer := none, arena := some r }
       match rec.kind with
@@ -222,16 +285,36 @@ def runEnabled (d : DS) (r : Nat) (q : RQ) : DS × RQ :=
           | none => false
         ({ d with exposedBad := d.exposedBad || bad }, out ++ [{ rec with done := true }])
       | .site =>
-        ({ d with siteBad := d.siteBad || d.st.amb.owner != some q.root }, out ++ [{ rec with done := true }])
+        -- `OwnedView::to_html_async_with_buf`: `Owner::on_cleanup(move || drop(self.owner))` on the AMBIENT owner
+        let foreign := d.st.amb.owner != some q.root
+        ({ d with siteBad := d.siteBad || (foreign && rec.hasSusp) }, out ++ [{ rec with done := true }])
       | .cleanup => (d, out ++ [rec])
   (d, { q with recs := recs })
+
+/-- the cleanups of request `r'` that sit under a late view parked in the ending request `b` run now, inside
+`b`'s stream (so under `b`'s arena) -/
+def runParked (d : DS) (bRoot : OwnerId) (b : Nat) : DS :=
+  (List.range d.reqs.length).foldl (init := d) fun d r' =>
+    match d.reqs[r']? with
+    | none => d
+    | some q =>
+      if q.ended then d else
+      let sites := (q.parked.filter fun p => p.2 == bRoot).map (·.1)
+      let (d, recs) := q.recs.foldl (init := (d, ([] : List Rec))) fun (d, out) rec =>
+        if rec.kind == .cleanup && !rec.done && (match rec.site with | some s => sites.contains s | none => false) then
+          let d := d.exec { req := r', captured := { arena := some b }, wrapped := false, sandboxed := true,
+                            steps := [.simple (.readAmb rec.id)] }
+          ({ d with siteBad := true }, out ++ [{ rec with done := true }])
+        else (d, out ++ [rec])
+      { d with reqs := d.reqs.set r' { q with recs := recs } }
 
 /-- the response stream ends: cleanups (arena read under `Sandboxed`), `Owner::unset` -/
 def endStream (d : DS) (r : Nat) (q : RQ) : DS × RQ :=
   let d := q.recs.foldl (init := d) fun d rec =>
-    if rec.kind == .cleanup then
+    if rec.kind == .cleanup && !rec.done then
       d.exec { req := r, captured := { arena := some r }, wrapped := false, sandboxed := true, steps := [.simple (.readAmb rec.id)] }
     else d
+  let d := runParked d q.root r
   let d := d.exec { req := r, captured := {}, wrapped := false, sandboxed := false, steps := [.unset q.root] }
   (d, { q with ended := true })
 
@@ -289,7 +372,7 @@ def step (d : DS) (line : String) : DS × String :=
       let root := d.world.owners.length
       let acc := compile (root + 1) r (mode == "io") { scope := root } {} p
       let w : World := { d.world with owners := d.world.owners ++ [{ req := r, parent := none, arena := r }] ++ acc.owners }
-      let q : RQ := { io := mode == "io", gates := gatesOf p, recs := acc.recs, root := root,
+      let q : RQ := { io := mode == "io", gates := gatesOf p, recs := acc.recs, nodes := acc.nodes, root := root,
                       provides := (root, r * 1000) :: acc.provides }
       ({ d with world := w, reqs := d.reqs ++ [q] }, "ok")
     | _, _ => (d, "bad-op")
@@ -300,7 +383,7 @@ def step (d : DS) (line : String) : DS × String :=
       -- the handler: Owner::new_root (permanent), additional_context + Provider bodies
       let d := d.exec { req := r, captured := {}, wrapped := false, sandboxed := false,
                         steps := .setRoot q.root :: q.provides.map fun (o, v) => .withOwner o [.provide v] }
-      let (d, q) := runEnabled d r { q with started := true }
+      let (d, q) := runEnabled d r { q with started := true } true
       (setReq d r q, "ok")
     | none => (d, "bad-op")
   | ["fire", rs, gs] =>
